@@ -329,8 +329,8 @@ Print Assumptions C11_helpers_out_of_bounds.
    integers up to 2^53, which discharges the side conditions in the ..._binary64 theorems).  That each binary64
    operation of the C / of the F64_ops run returns rnd64 of the exact result (finite operands, no overflow) is Flocq's
    theorem on Coq's primitive floats (Common/RoundFlocq.v prim_*_rnd64); its composition along a whole loop is not proved.
-   Scope: sum, dot, mean (all lengths, all strides, by induction) and norm2.  NOT covered: norm3, norm_, the
-   hyperbolic/expm1/log1p/atan2 bodies (their accuracy clauses above stay ..._partial).
+   Scope: sum, dot, mean (all lengths, all strides, by induction) and norm2; norm, norm_ and norm3 in the last section of
+   this file.  NOT covered: the hyperbolic/expm1/log1p/atan2 bodies (their accuracy clauses above stay ..._partial).
    prods xs ys = [x_i * y_i], gamma eps k = k eps / (1 - k eps).  The cells are arbitrary reals unless stated.
    Non-vacuity: RoundProofs.reductions_round_id (identity rounding: all four bounds are 0 and the instances agree),
    sum_round_scale (inexact model rnd v = 9/8 v: 225/64 vs 3, inside the bound), norm2_round_binary64_ex (x=3, y=-4). *)
@@ -455,3 +455,67 @@ Theorem C11_norm2_rounding_bound_binary64 : forall x y : R,
   Rabs (real_norm2 (Rnd_ops rnd64) x y - h) <= 7 / 2 * (eps64 + eta64) * h + eta64.
 Proof. exact norm2_round_binary64. Qed.
 Print Assumptions C11_norm2_rounding_bound_binary64.
+
+(* ================================================================================================================
+   ROUNDING ERROR of the n-element scaled norm a_real_norm / a_real_norm_ and of a_real_norm3 (C11/NormRound.v), at the
+   rounded-real instance, every std_model rnd eps eta, EVERY length n >= 1 and stride.  (This supersedes the "NOT covered:
+   norm3, norm_" of the scope note above.)  Pass 1 (largest magnitude w) is exact: fabs and comparisons do not round and the
+   isinf test x + x == x is false for a cell that is 0 or at least 2 eta in magnitude (every binary64 number is).  Pass 2
+   accumulates rnd (q q), q = rnd (p_i / w), by s := rnd (s + ..); the result is rnd (rnd (sqrt s) * w).  With
+   N = sqrt (sum p_i^2), w > 0 and (n + 3)(eps + eta) <= 1/64:
+        |fl - N| <= ((9/16 n + 15/4) eps + (9/4 n + 17/16) eta) N + eta  <=  (9/4 n + 15/4)(eps + eta) N + eta
+   (norm_C n eps eta is the first bracket; first-order truth (n/2 + 3.5) eps).  The eta inside the bracket is underflow in the
+   scaled quantities, the last eta the absolute underflow error of the final product.  Overflow is outside the model.
+   Non-vacuity: NormRound.norm_round_binary64_ex ([3; -4; 12] in binary64), norm_round_scale_ex (inexact model
+   rnd v = v (1 + 2^-10) on [3; 4]), norm3_round_binary64_ex ((2, -3, 6) in binary64). *)
+From LibaV Require Import C11.NormRound.
+
+Theorem C11_norm_rounding_bound : forall (rnd : R -> R) (eps eta : R), std_model rnd eps eta ->
+  forall (n : nat) (p : list R) (c : nat), (1 <= c)%nat -> in_bounds n p 0 c ->
+  let xs := cells 0 n p 0 c in
+  List.Forall (fun v => v = 0 \/ 2 * eta <= Rabs v) xs -> 0 < maxabs xs 0 -> INR (n + 3) * (eps + eta) <= / 64 ->
+  let N := sqrt (sumsq xs) in
+  exists fl, real_norm_ (Rnd_ops rnd) n p c = Some fl /\ real_norm_ R_ops n p c = Some N /\
+    (c = 1%nat -> real_norm (Rnd_ops rnd) n p = Some fl) /\
+    Rabs (fl - N) <= ((9 / 16 * INR n + 15 / 4) * eps + (9 / 4 * INR n + 17 / 16) * eta) * N + eta /\
+    Rabs (fl - N) <= (9 / 4 * INR n + 15 / 4) * (eps + eta) * N + eta.
+Proof. exact norm_round. Qed.
+Print Assumptions C11_norm_rounding_bound.
+
+(* the all-zero vector (w = 0) returns 0 exactly *)
+Theorem C11_norm_rounding_zero : forall (rnd : R -> R) (eps eta : R), std_model rnd eps eta ->
+  forall l : list R, List.Forall (fun v => v = 0 \/ 2 * eta <= Rabs v) l -> maxabs l 0 <= 0 ->
+  norm_cells (Rnd_ops rnd) l = 0 /\ norm_cells R_ops l = 0 /\ sumsq l = 0.
+Proof. exact norm_cells_round_zero. Qed.
+Print Assumptions C11_norm_rounding_zero.
+
+(* a_real_norm3: ten roundings, first-order truth 4.5 eps *)
+Theorem C11_norm3_rounding_bound : forall (rnd : R -> R) (eps eta : R), std_model rnd eps eta ->
+  forall x y z : R, rnd 1 = 1 -> eps + eta <= / 64 ->
+  (x = 0 \/ 2 * eta <= Rabs x) -> (y = 0 \/ 2 * eta <= Rabs y) -> (z = 0 \/ 2 * eta <= Rabs z) ->
+  let h := sqrt (x * x + y * y + z * z) in
+  real_norm3 R_ops x y z = h /\
+  Rabs (real_norm3 (Rnd_ops rnd) x y z - h) <= (21 / 4 * eps + 25 / 4 * eta) * h + eta.
+Proof. exact norm3_round. Qed.
+Print Assumptions C11_norm3_rounding_bound.
+
+(* IEEE binary64: every length up to 2^45 *)
+Theorem C11_norm_rounding_bound_binary64 : forall (n : nat) (p : list R) (c : nat),
+  (1 <= c)%nat -> in_bounds n p 0 c -> (n <= 2 ^ 45)%nat ->
+  let xs := cells 0 n p 0 c in
+  List.Forall (fun v => v = 0 \/ 2 * eta64 <= Rabs v) xs -> 0 < maxabs xs 0 ->
+  let N := sqrt (sumsq xs) in
+  exists fl, real_norm_ (Rnd_ops rnd64) n p c = Some fl /\ real_norm_ R_ops n p c = Some N /\
+    (c = 1%nat -> real_norm (Rnd_ops rnd64) n p = Some fl) /\
+    Rabs (fl - N) <= ((9 / 16 * INR n + 15 / 4) * eps64 + (9 / 4 * INR n + 17 / 16) * eta64) * N + eta64 /\
+    Rabs (fl - N) <= (9 / 4 * INR n + 15 / 4) * (eps64 + eta64) * N + eta64.
+Proof. exact norm_round_binary64. Qed.
+Print Assumptions C11_norm_rounding_bound_binary64.
+
+Theorem C11_norm3_rounding_bound_binary64 : forall x y z : R,
+  (x = 0 \/ 2 * eta64 <= Rabs x) -> (y = 0 \/ 2 * eta64 <= Rabs y) -> (z = 0 \/ 2 * eta64 <= Rabs z) ->
+  let h := sqrt (x * x + y * y + z * z) in
+  real_norm3 R_ops x y z = h /\
+  Rabs (real_norm3 (Rnd_ops rnd64) x y z - h) <= (21 / 4 * eps64 + 25 / 4 * eta64) * h + eta64.
+Proof. exact norm3_round_binary64. Qed.
+Print Assumptions C11_norm3_rounding_bound_binary64.
